@@ -59,8 +59,36 @@ where
     }
 }
 
+/// spec field "once_shape": "tuple" -- the single-use response ("once") is a composite `(Tok, &Val, Tok)` whose
+/// two owned leaves live in separate slots (method `tt` takes the place of `t0`)
+pub static ONCE_TUPLE: std::sync::atomic::AtomicBool = std::sync::atomic::AtomicBool::new(false);
+fn once_tuple() -> bool {
+    ONCE_TUPLE.load(std::sync::atomic::Ordering::SeqCst)
+}
+
 /// The fixed mock of tla/Conc.tla.
 pub fn conc_mock() -> Unimock {
+    if once_tuple() {
+        return Unimock::new((
+            UMock::r0
+                .each_call(&matcher_labeled::<UMock::r0>("(any)"))
+                .returns(Val::new(111))
+                .n_times(1)
+                .then()
+                .returns(Val::new(112))
+                .n_times(1)
+                .then()
+                .returns(Val::new(113)),
+            UMock::r1.next_call(&matcher_labeled::<UMock::r1>("(ordp1)")).returns(Val::new(211)),
+            UMock::r1.next_call(&matcher_labeled::<UMock::r1>("(ordp2)")).returns(Val::new(311)),
+            UMock::tt
+                .some_call(&|m| {
+                    m.func(|_, _| true);
+                    m.pat_debug("(once)", "conc", 1);
+                })
+                .returns((Tok::new(411), Val::new(412), Tok::new(413))),
+        ));
+    }
     Unimock::new((
         UMock::r0
             .each_call(&matcher_labeled::<UMock::r0>("(any)"))
@@ -81,6 +109,11 @@ fn do_call(u: &Unimock, kind: &str) -> Value {
     let r = catch_unwind(AssertUnwindSafe(|| match kind {
         "any" => u.r0(0).id,
         "ord" => u.r1(0).id,
+        "once" if once_tuple() => {
+            let (a, b, c) = u.tt();
+            // the caller that gets the value gets all of it
+            if (a.id, b.id, c.id) == (411, 412, 413) { 411 } else { 0 }
+        }
         "once" => u.t0(0).id,
         "unm" => u.r2(0).id,
         k => panic!("harness: unknown call kind {k}"),
@@ -113,6 +146,9 @@ fn verdict_of(orig: Unimock) -> Value {
                         if l.contains(&format!("U::{m} ")) {
                             never.push(m);
                         }
+                    }
+                    if l.contains("U::tt ") {
+                        never.push("t0");
                     }
                 } else if l.contains(": Expected ") {
                     for k in ["any", "ordp1", "ordp2", "once"] {
@@ -295,6 +331,7 @@ pub fn run_conc(spec_path: &str, trace_path: &str, summary_path: &str) -> i32 {
     };
     let hook_ok = install();
     let chain = spec["kind"].as_str() == Some("chain");
+    ONCE_TUPLE.store(spec["once_shape"].as_str() == Some("tuple"), std::sync::atomic::Ordering::SeqCst);
     let mut out = std::io::BufWriter::new(std::fs::File::create(trace_path).expect("trace file"));
     let mut x = 0u64;
     let mut per_prog = vec![];
